@@ -237,6 +237,7 @@ def shards(tier: str, seed: int):
                 out.append(["hdr", api, kind, part])
         out.append(["bytes", api])
         out.append(["seq", api])
+        out.append(["api-eof", api])
     return out
 
 
@@ -361,6 +362,54 @@ def run_shard(shard, tier, seed, acc) -> None:
         acc.states += cnt
         acc.nt_counted(cnt)
         acc.sample({"api": api, "one connection": kinds, "cut_in_reply": which, "cut_at": cut})
+    elif what == "api-eof":
+        # through the public API, twice in a row in one process, against a key service that closes the connection k bytes into its
+        # bind_ack / its GetKey reply (server name in mixed case): each call ends with an error after a bounded number of connections
+        import dpapi_ng
+
+        from env import refdc
+        from ref import cms as _cms
+
+        d_ = seams.Drbg(("C14api", seed))
+        rk = seams.make_root(d_, "SHA256")
+        blob = _cms.ref_encrypt(rk, "S-1-5-21-1-2-3-1104", b"c14", (361, 3, 5), cek=d_.bytes(32), gcm_nonce_=d_.bytes(12), key_nonce=d_.bytes(32))
+        cnt = 0
+        for which in ("bind_ack", "getkey"):
+            for k in (0, 1, 9, 16, 40):
+                dc = refdc.DC([rk], now=(361, 10, 12))
+
+                def seg(conn, reply, which=which, k=k):
+                    if conn.kind != "isd":
+                        return [reply]
+                    is_ack = reply[2] == rpc.BIND_ACK
+                    if (which == "bind_ack") == is_ack:
+                        return ([reply[:k]] if k else []) + [None]
+                    return [reply]
+
+                dc.segment_conn = seg
+                for call in (0, 1):
+                    case = ["api-eof", api, which, k, call]
+                    with transport.network(dc, defer=(api == "async")) as hub, secctx.scripted_client(lambda u, p, **kw: secctx.ScriptedContext([b"C1"], 16)):
+                        kw = dict(server="DC01.Verif.Test", username="u", password="p", auth_protocol="ntlm")
+                        try:
+                            if api == "sync":
+                                v = budget.run(STEP_LIMIT * 4, dpapi_ng.ncrypt_unprotect_secret, blob, **kw)[0]
+                            else:
+                                v = budget.run(STEP_LIMIT * 4, vloop.run, dpapi_ng.async_ncrypt_unprotect_secret(blob, **kw), hub.release_chunk)[0]
+                            acc.violate("api-eof.returned", case, {"value": repr(bytes(v))[:40]}, size=k)
+                        except budget.BudgetExceeded as e:
+                            acc.violate("api-eof.no-termination", case, {"detail": repr(e), "connections": len(hub.attempts)}, size=k)
+                        except (transport.Spin, transport.BlocksForever, vloop.Deadlock) as e:
+                            acc.violate("api-eof.blocks", case, {"detail": repr(e), "connections": len(hub.attempts)}, size=k)
+                        except Exception:  # noqa: BLE001
+                            if len(hub.attempts) > 4:
+                                acc.violate("api-eof.too-many-connections", case, {"connections": hub.attempts}, size=k)
+                            acc.outcome("api-eof:error")
+                    cnt += 1
+        acc.ev(cnt)
+        acc.states += cnt
+        acc.nt_counted(cnt)
+        acc.sample({"api": api, "key service closes the connection": "0, 1, 9, 16, 40 bytes into its bind_ack / GetKey reply", "calls per process": 2})
     elif what == "eof":
         kind = shard[2]
         replies, target = canned(kind)
@@ -400,6 +449,14 @@ def replay(case, seed, acc) -> None:
     _socket.setdefaulttimeout(0.25)
     seams.block_network()
     label, api, kind = case[0], case[1], case[2]
+    if label == "api-eof":
+        run_shard(["api-eof", api], "quick", seed, acc)
+        for kk in list(acc.violations):
+            acc.violations[kk] = [e for e in acc.violations[kk] if e["case"] == case]
+            if not acc.violations[kk]:
+                del acc.violations[kk]
+        acc.violation_count = sum(len(v) for v in acc.violations.values())
+        return
     if label == "seq":
         run_shard(["seq", api], "quick", seed, acc)
         return
